@@ -101,6 +101,47 @@ theorem C01_time_past_24 : parseGtfsTime [50, 53, 58, 49, 48, 58, 48, 48] = some
     `Result.zone` = the first agency's resolved zone, UTC when unknown) -/
 theorem C01_date_valid : Civil.parseDate8 [50, 48, 50, 52, 48, 50, 50, 57] = some 19782 ∧ Civil.parseDate8 [50, 48, 50, 51, 48, 50, 50, 57] = none := by decide
 
+/-- **every eight-digit date** (all 10⁸ of them, by arithmetic, not enumeration): `YYYYMMDD` with a month
+    1–12 and a day that exists in that month of that year is the civil day it names; every other
+    eight-digit string is rejected – no normalisation, no roll-over into the next month -/
+theorem C01_date_all_digits (a b c d e f g h : Nat) (ha : a < 10) (hb : b < 10) (hc : c < 10) (hd : d < 10)
+    (he : e < 10) (hf : f < 10) (hg : g < 10) (hh : h < 10) :
+    let y : Nat := 1000 * a + 100 * b + 10 * c + d
+    let m : Nat := 10 * e + f
+    let day : Nat := 10 * g + h
+    Civil.parseDate8 [digitChar a, digitChar b, digitChar c, digitChar d, digitChar e, digitChar f, digitChar g, digitChar h]
+      = if 1 ≤ m ∧ m ≤ 12 ∧ 1 ≤ day ∧ day ≤ Civil.daysInMonth y m
+        then some (Civil.firstOfMonth y m + ((day : Int) - 1)) else none := by
+  intro y m day
+  have hy : digitsVal [digitChar a, digitChar b, digitChar c, digitChar d] = y := by
+    simp [digitsVal, digitVal_digitChar, Nat.mod_eq_of_lt ha, Nat.mod_eq_of_lt hb, Nat.mod_eq_of_lt hc, Nat.mod_eq_of_lt hd, y]; omega
+  have hm : digitsVal [digitChar e, digitChar f] = m := by
+    simp [digitsVal, digitVal_digitChar, Nat.mod_eq_of_lt he, Nat.mod_eq_of_lt hf, m]
+  have hday : digitsVal [digitChar g, digitChar h] = day := by
+    simp [digitsVal, digitVal_digitChar, Nat.mod_eq_of_lt hg, Nat.mod_eq_of_lt hh, day]
+  simp only [Civil.parseDate8, Civil.allDigits, List.length_cons, List.length_nil, List.all_cons, List.all_nil, digitChar_isDigit,
+    List.take, List.drop, hy, hm, hday, Bool.and_self, decide_true, if_true, Bool.and_eq_true, decide_eq_true_eq]
+  by_cases hv : 1 ≤ m ∧ m ≤ 12 ∧ 1 ≤ day ∧ day ≤ Civil.daysInMonth y m
+  · obtain ⟨h1, h2, h3, h4⟩ := hv
+    simp [h1, h2, h3, h4]
+  · simp only [hv, if_false]
+    split
+    · rename_i hcond
+      exact absurd ⟨hcond.1.1.1, hcond.1.1.2, hcond.1.2, hcond.2⟩ hv
+    · rfl
+
+/-- anything that is not eight bytes long is not a date -/
+theorem C01_date_not_eight (s : Str) (h : s.length ≠ 8) : Civil.parseDate8 s = none := by
+  simp [Civil.parseDate8, h]
+
+/-- anything with a non-digit byte is not a date -/
+theorem C01_date_non_digit (s : Str) (h : Civil.allDigits s = false) : Civil.parseDate8 s = none := by
+  simp [Civil.parseDate8, h]
+
+/-- the day count of a month never reaches 32, so `20230230`, `20230431`, `20250229` are rejected -/
+example : Civil.parseDate8 [50, 48, 50, 51, 48, 50, 51, 48] = none ∧ Civil.parseDate8 [50, 48, 50, 51, 48, 52, 51, 49] = none ∧
+    Civil.parseDate8 [50, 48, 50, 53, 48, 50, 50, 57] = none ∧ Civil.parseDate8 [50, 48, 50, 52, 48, 50, 50, 57] = some 19782 := by decide
+
 theorem C01_zone_rule (env : Env) (f : Csv.File) (st : St) :
     (action env f_agency f st).res.zone =
       (match (parseAgencies f).1 with
